@@ -17,13 +17,9 @@ Definition expiry_instant (m : mech) (e : Z) : Z :=
   match m with MClientCred => e | _ => secs e end.
 
 (** the configuration in force for a rule, as the documentation describes it: the
-    rule-level setting if there is one, else the mechanism's (client credentials
-    are configured on the endpoint only) *)
+    rule-level setting if there is one, else the mechanism's *)
 Definition spec_cfg (m : mech) (conf rule : option Z) : option Z :=
-  match m with
-  | MClientCred => conf
-  | _ => match rule with Some r => Some r | None => conf end
-  end.
+  match rule with Some r => Some r | None => conf end.
 
 (** the longest delay between computing a TTL and the cache applying it that the
     theorems tolerate (the mechanisms deduct 5 s or 10 s; one second is lost to
@@ -223,7 +219,7 @@ Theorem zero_disables : forall f m conf rule,
 Proof.
   intros f m conf rule Hm Hc Hg st.
   assert (Hst : exists c, st = Some c /\ c <= 0).
-  { subst st. destruct m; try congruence; simpl in Hc;
+  { subst st. unfold spec_cfg in Hc. destruct m; try congruence; simpl in Hc;
       try (destruct rule as [r|]; [inversion Hc; subst; simpl; exists 0; split; [reflexivity | lia]
                                   | subst conf; simpl; exists 0; split; [reflexivity | lia]]).
     destruct rule as [r|]; [inversion Hc; subst | subst conf; simpl; exists 0; split; [reflexivity | lia]].
@@ -544,3 +540,93 @@ Proof.
   split; [|vm_compute; reflexivity].
   unfold wf_hist. repeat (apply Forall_cons; [unfold max_delay, secs, ns_per_s; lia|]). apply Forall_nil.
 Qed.
+
+(** ** the repaired code (fix: commits 637ae67, c971513, e0dc5e2): no guards *)
+
+Lemma guard_F1_fixed f m st exp now : fx1 f = true -> guard_F1 f m st exp now = false.
+Proof. intro H. unfold guard_F1. rewrite H. reflexivity. Qed.
+
+Lemma guard_F2_fixed f b expires dflt now : fx2 f = true -> guard_F2 f b expires dflt now = false.
+Proof. intro H. unfold guard_F2. rewrite H. reflexivity. Qed.
+
+Lemma guard_F3_fixed f m conf rule : fx3 f = true -> guard_F3 f m conf rule = false.
+Proof. intro H. unfold guard_F3. rewrite H. reflexivity. Qed.
+
+Theorem ttl_within_lifetime_fixed : forall f m st e now d ttl,
+  fx1 f = true ->
+  expiry_mech m = true ->
+  store f m st (Some e) now = Some ttl ->
+  0 <= d <= max_delay ->
+  0 < ttl /\ now + d + ttl < expiry_instant m e.
+Proof. intros f m st e now d ttl Hf Hm. apply ttl_within_lifetime; [exact Hm | apply guard_F1_fixed; exact Hf]. Qed.
+
+Theorem zero_disables_fixed : forall f m conf rule,
+  fx3 f = true ->
+  m <> MJwtFin ->
+  spec_cfg m conf rule = Some 0 ->
+  let st := withconfig_ttl f m (create_ttl m conf) rule in
+  lookup_enabled m st = false /\ forall exp now, store f m st exp now = None.
+Proof. intros f m conf rule Hf Hm Hc. apply zero_disables; [exact Hm | exact Hc | apply guard_F3_fixed; exact Hf]. Qed.
+
+Theorem http_not_stored_when_nonpositive_fixed : forall f b cachable expires dflt now1 now2 ts k (v : result) c l,
+  fx2 f = true ->
+  now1 <= now2 ->
+  http_lifetime expires dflt now2 = Some l -> l <= 0 ->
+  match http_store_decision f cachable expires dflt now1 now2 with
+  | Some ttl => cset b ts k v ttl c = c
+  | None => True
+  end.
+Proof.
+  intros f b cachable expires dflt now1 now2 ts k v c l Hf Hn Hl Hle.
+  eapply http_not_stored_when_nonpositive; eauto. apply guard_F2_fixed. exact Hf.
+Qed.
+
+(** stronger: the repaired round tripper does not even call [Set] *)
+Theorem http_no_set_when_nonpositive_fixed : forall f cachable expires dflt now1 now2 l,
+  fx2 f = true ->
+  now1 <= now2 ->
+  http_lifetime expires dflt now2 = Some l -> l <= 0 ->
+  http_store_decision f cachable expires dflt now1 now2 = None.
+Proof.
+  intros f cachable expires dflt now1 now2 l Hf Hn Hl Hle.
+  unfold http_store_decision. destruct cachable; simpl; [|reflexivity]. rewrite Hf. simpl.
+  unfold http_lifetime in Hl. destruct expires as [e|].
+  - inversion Hl; subst. assert (H : (e - now2 <=? 0) = true) by lia. rewrite H. reflexivity.
+  - destruct (dflt =? 0); [reflexivity|]. inversion Hl; subst.
+    assert (H : (now1 + l - now2 <=? 0) = true) by lia. rewrite H. reflexivity.
+Qed.
+
+Theorem no_hit_after_expiry_mech_fixed : forall b f m st h now0,
+  fx1 f = true ->
+  expiry_mech m = true ->
+  wf_hist max_delay h ->
+  forall t v e,
+    In (Hit t v) (run b (lookup_enabled m st) (mech_policy f m st) now0 [] h) ->
+    r_exp v = Some e -> t < expiry_instant m e.
+Proof.
+  intros b f m st h now0 Hf Hm Hwf. apply no_hit_after_expiry_mech; [exact Hm | exact Hwf |].
+  intros. apply guard_F1_fixed. exact Hf.
+Qed.
+
+Theorem no_hit_after_expiry_http_fixed : forall b f dflt D h now0,
+  fx2 f = true ->
+  wf_hist D h ->
+  forall t v e,
+    In (Hit t v) (run b true (http_policy f dflt) now0 [] h) ->
+    r_exp v = Some e -> t <= e + D.
+Proof.
+  intros b f dflt D h now0 Hf Hwf. apply no_hit_after_expiry_http; [exact Hwf|].
+  intros. apply guard_F2_fixed. exact Hf.
+Qed.
+
+(** the former witnesses of C10-F1/F3 on the repaired code *)
+Example fixed_witnesses :
+  store fx_all MIntro s300 (Some 1005) (secs 1000) = None /\
+  store fx_all MJwtKey None (Some 1005) (secs 1000) = None /\
+  store fx_all MClientCred s300 (Some (secs 1003)) (secs 1000) = None /\
+  store fx_all MIntro s300 (Some 1100) (secs 1000) = Some (secs 90) /\
+  store fx_all MJwtKey None (Some 2000) (secs 1000) = Some (secs 600) /\
+  store fx_all MClientCred None (Some (secs 1100)) (secs 1000) = Some (secs 95) /\
+  http_store_decision fx_all true (Some (secs 1000)) 0 (secs 1000) (secs 1000) = None /\
+  lookup_enabled MRemote (withconfig_ttl fx_all MRemote (create_ttl MRemote (Some (secs 30))) (Some 0)) = false.
+Proof. vm_compute. splits; reflexivity. Qed.
